@@ -425,6 +425,17 @@ func parseRaces(st string) []raceReport {
 			sites = append(sites, site)
 		}
 		sort.Strings(sites)
+		// both accesses in harness code: an artefact of the hand-over between simulated goroutines being invisible to
+		// the race detector (only one of them runs at a time), not a race of the system under test
+		harnessOnly := len(sites) > 0
+		for _, st := range sites {
+			if !strings.HasPrefix(st, "HARNESS:") {
+				harnessOnly = false
+			}
+		}
+		if harnessOnly {
+			continue
+		}
 		out = append(out, raceReport{Sig: "C14:race:" + strings.Join(sites, "|"), Text: tail("WARNING: DATA RACE"+p, 6000)})
 	}
 	return out
